@@ -15,6 +15,8 @@ pub async fn build_target(
     log::info!("{} - Building", target);
 
     let mut command = run_script::build_command(&target.build_script, &target.metadata.project_dir);
+    #[cfg(zinoma_verif)]
+    let mut command = crate::verif::Command::wrap(command, &target.metadata.id, crate::verif::ProcKind::Build);
     command.stdout(Stdio::inherit()).stderr(Stdio::inherit());
 
     let mut build_process = command
